@@ -98,6 +98,21 @@ func (c *Conversation) commitToVersionFrom(versions int) error {
 	return c.setKeyMatchingVersion()
 }
 
+// commitToOfferedVersionFrom is used for offers - query messages and
+// whitespace tags. Once a conversation has committed to a version, an offer
+// can only be taken up if it contains that version.
+func (c *Conversation) commitToOfferedVersionFrom(versions int) error {
+	if err := c.commitToVersionFrom(versions); err != nil {
+		return err
+	}
+
+	if versions&(1<<c.version.protocolVersion()) == 0 {
+		return errUnsupportedOTRVersion
+	}
+
+	return nil
+}
+
 func (c *Conversation) setKeyMatchingVersion() error {
 	for _, k := range c.ourKeys {
 		if k.IsAvailableForVersion(c.version.protocolVersion()) {
